@@ -728,3 +728,67 @@ fn for_each_varblocks(
         }
     }
 }
+
+/// Verification hook H3 (only with `--cfg jxl_oxide_verif`): public wrappers around the
+/// crate-private block transforms so that an external checker can drive them directly.
+/// Nothing here is compiled in a normal build and no production code path calls it.
+#[cfg(jxl_oxide_verif)]
+pub mod verif_h3 {
+    use jxl_grid::{MutableSubgrid, SharedSubgrid};
+    use jxl_modular::ChannelShift;
+    use jxl_vardct::{BlockInfo, TransformType};
+
+    pub use super::dct_common::DctDirection;
+
+    /// Generic (scalar) in-place 2-D DCT / IDCT.
+    pub fn generic_dct_2d(io: &mut MutableSubgrid<'_>, direction: DctDirection) {
+        super::generic::dct_2d(io, direction)
+    }
+
+    /// Generic (scalar) in-place inverse transform of one varblock.
+    pub fn generic_transform(coeff: &mut MutableSubgrid<'_>, dct_select: TransformType) {
+        super::generic::verif_transform(coeff, dct_select)
+    }
+
+    /// Generic (scalar) LF insertion + inverse transform of all varblocks.
+    pub fn generic_transform_varblocks(
+        lf: &[SharedSubgrid<f32>; 3],
+        coeff_out: &mut [MutableSubgrid<'_, f32>; 3],
+        shifts_cbycr: [ChannelShift; 3],
+        block_info: &SharedSubgrid<BlockInfo>,
+    ) {
+        super::generic::transform_varblocks(lf, coeff_out, shifts_cbycr, block_info)
+    }
+
+    /// `transform_varblocks` as selected for the build target (what `render_vardct` calls).
+    pub fn selected_transform_varblocks(
+        lf: &[SharedSubgrid<f32>; 3],
+        coeff_out: &mut [MutableSubgrid<'_, f32>; 3],
+        shifts_cbycr: [ChannelShift; 3],
+        block_info: &SharedSubgrid<BlockInfo>,
+    ) {
+        super::impls::transform_varblocks(lf, coeff_out, shifts_cbycr, block_info)
+    }
+
+    /// x86_64 in-place 2-D DCT / IDCT (vector code, generic fallback for unaligned buffers).
+    #[cfg(target_arch = "x86_64")]
+    pub fn x86_64_dct_2d(io: &mut MutableSubgrid<'_>, direction: DctDirection) {
+        super::x86_64::verif_dct_2d(io, direction)
+    }
+
+    /// x86_64 in-place inverse transform of one varblock, runtime-dispatched exactly like
+    /// `transform_varblocks`; returns the name of the variant that ran.
+    #[cfg(target_arch = "x86_64")]
+    pub fn x86_64_transform(
+        coeff: &mut MutableSubgrid<'_>,
+        dct_select: TransformType,
+    ) -> &'static str {
+        super::x86_64::verif_transform(coeff, dct_select)
+    }
+
+    /// x86_64 SSE2 variant of the single-varblock inverse transform.
+    #[cfg(target_arch = "x86_64")]
+    pub fn x86_64_transform_sse2(coeff: &mut MutableSubgrid<'_>, dct_select: TransformType) {
+        super::x86_64::verif_transform_sse2(coeff, dct_select)
+    }
+}
